@@ -371,6 +371,19 @@ Definition response_header_decode (version : Z) (d : dec) : res (Z * Z) :=
        | Panic w => Panic w
        | Alloc n => Alloc n
        end.
+(* broker.go responseReceiver: read getHeaderLength(version) bytes, versionedDecode them as a responseHeader (the whole
+   header buffer must be consumed), compare the correlation id, then buf := make([]byte, length - headerLength + 4)
+   (int32 arithmetic; a negative size is a run-time panic in the receiver goroutine).  [d] is a decoder over the
+   header bytes; the result is the body size. *)
+Definition header_length (version : Z) : Z := if version <? 1 then 8 else 9.
+Definition response_receive (version expect_corr : Z) (d : dec) : res Z :=
+  let* (p, d) := response_header_decode version d in
+  if negb (off d =? len (raw d)) then Err EInvalidLength d
+  else if negb (snd p =? expect_corr) then Err EOther d
+  else
+    let size := i32 (i32 (fst p - header_length version) + 4) in
+    if size <? 0 then Panic P_MAKE else Ok size (alloc d size).
+
 (* what a broker writes: length (of everything after it), correlation id, empty tagged fields from header v1 *)
 Definition response_header_ops (version length corr : Z) : eops :=
   eseq ([PInt32 length; PInt32 corr] ++ (if 1 <=? version then [PEmptyTagged] else [])) ENil.
